@@ -174,11 +174,41 @@ def rule_rng_sources(ck):
     ck.extra['rng_call_sites'] = n
 
 
+def _simulator(ck, q):
+    """the function that does the simulating for `q`: `q` itself, or - when `q` only prepares a fresh scratch array and hands its own
+    arguments, unchanged and by name, to another of the three simulators - that one (its obligations are then the delegate's)"""
+    P = ck.prog
+    f = P.func(q)
+    rets = [r for r in returns(f) if r.value is not None]
+    body = [s_ for s_ in f.node.body if not (isinstance(s_, ast.Expr) and isinstance(s_.value, ast.Constant))]
+    if len(rets) == 1 and len(body) <= 2 and isinstance(rets[0].value, ast.Call):
+        tgt = callee(P, f, rets[0].value)
+        if tgt in SIMULATORS and tgt != q:
+            g = P.func(tgt)
+            m, okb = bind_args(g, rets[0].value)
+            good = okb
+            for prm, arg in (m or {}).items():
+                if isinstance(arg, ast.Name) and arg.id == prm and prm in f.params:
+                    continue
+                if prm == 'sim_fore' and isinstance(arg, ast.Name):
+                    defs = find_assignments(f, arg.id)
+                    if len(defs) == 1 and isinstance(defs[0], ast.Assign) and isinstance(defs[0].value, ast.Call) \
+                            and callee(P, f, defs[0].value) in ('numpy.zeros', 'numpy.zeros_like'):
+                        continue
+                good = False
+            o = ck.ob('C06-D6.delegate', f, rets[0].value, rets[0])
+            if good:
+                o.ok('hands its own arguments and a fresh zero array to %s' % g.short)
+                return g
+            o.fail('%s hands `%s` to %s: not its own arguments by name and a fresh zero array' % (f.short, u(rets[0].value)[:70], g.short))
+    return f
+
+
 def rule_sampling(ck):
     P = ck.prog
     nss = 0
     for q in SIMULATORS:
-        f = P.func(q)
+        f = _simulator(ck, q)
         ss = calls_in(P, f, {'numpy.searchsorted', '.searchsorted', 'numpy.digitize'})
         if not ss:
             ck.ob('C06-D3.side', f, 'searchsorted', f.node).fail('%s no longer places events with numpy.searchsorted on the cumulative weights' % f.short)
@@ -307,7 +337,7 @@ def rule_reset(ck):
     P = ck.prog
     ck.clause('D6')
     for q in SIMULATORS:
-        f = P.func(q)
+        f = _simulator(ck, q)
         cfg = f.cfg
         # scratch array: parameter sim_fore or a local from numpy.zeros
         arr = 'sim_fore'
